@@ -4,6 +4,7 @@ import Rare.Proofs.C02Named
 import Rare.Proofs.C02RxIdx
 import Rare.Proofs.C02RxPosix
 import Rare.Proofs.C02RxRep
+import Rare.Proofs.C02Batch
 import Rare.Model.C02RxParse
 import Rare.Model.C02Plan
 import Rare.Props.C01
@@ -581,6 +582,72 @@ theorem rx_assertions (s : Bytes) (k : Rx.Look) (i j : Nat) :
   · cases h with
     | look h => exact ⟨rfl, h⟩
   all_goals simp [Rx.holds]
+
+
+/-! ### Batches at the level of Go slices: what a late consumer reads (`Model/C02Batch`) -/
+
+/-- the text of the two batching loops as the translator reads it from `batcher.go` on every run -/
+def loopTextPlain : BatchH.LoopText :=
+  ⟨Gen.C02.batchLoopPlain_pre, Gen.C02.batchLoopPlain_start, Gen.C02.batchLoopPlain_loopCond, Gen.C02.batchLoopPlain_head,
+   Gen.C02.batchLoopPlain_cond, Gen.C02.batchLoopPlain_flush, Gen.C02.batchLoopPlain_tailCond, Gen.C02.batchLoopPlain_tail⟩
+def loopTextTimed : BatchH.LoopText :=
+  ⟨Gen.C02.batchLoopTimed_pre, Gen.C02.batchLoopTimed_start, Gen.C02.batchLoopTimed_loopCond, Gen.C02.batchLoopTimed_head,
+   Gen.C02.batchLoopTimed_cond, Gen.C02.batchLoopTimed_flush, Gen.C02.batchLoopTimed_tailCond, Gen.C02.batchLoopTimed_tail⟩
+
+/-- **The batching loops of the model are the source's**, statement by statement: `syncReaderToBatcher` and
+`syncReaderToBatcherWithTimeFlush` start from `make(…, 0, batchSize)` and `batchStart = 1`, append the scanned
+line, flush on `len(batch) >= batchSize` (timed loop: `|| time.Since(lastBatchFlush) >= autoFlush`) by sending
+`InputBatch{batch, sourceName, batchStart}`, advancing `batchStart` by `len(batch)` and ALLOCATING a new slice,
+and send the remainder after the loop.  The worker walks `batch.Batch` with `idx` and numbers line `idx`
+`batch.BatchStart + idx`.  (A changed statement, condition or order in /repo makes this false.) -/
+theorem batch_loops_from_source :
+    BatchH.parseLoop loopTextPlain = some BatchH.plainLoop ∧ BatchH.parseLoop loopTextTimed = some BatchH.timedLoop ∧
+    Gen.C02.workerRange = ["idx", "str", "batch.Batch"] ∧
+    Gen.C02.workerCall = ["batch.Source", "batch.BatchStart+uint64(idx)", "str"] ∧
+    ∀ start idx : Int, Gen.C02.workerLineNum start idx = start + idx := by
+  refine ⟨by decide +kernel, by decide +kernel, by decide +kernel, by decide +kernel, fun _ _ => rfl⟩
+
+/-- **However long the consumer holds a batch, and however the 250 ms timer fired.**  Run the source's timed loop
+(`l`, the program the translator read) on the slice-level machine – backing arrays, `append` in place, `make` – for
+any batch size `≥ 1` (the CLI refuses others), any lines and any timer behaviour; let every `InputBatch` that was
+sent be read only at the very end, after all later lines were appended (`lateRead`), and numbered the way the worker
+numbers (`BatchStart + idx`): every line of the input appears exactly once, in order, with its own text and its true
+1-based number.  The same at every earlier moment for the batches sent so far (they read what the list-level loop
+`Rare.Batcher.step` sent), and for the loop without timer. -/
+theorem sent_batches_stable {α : Type} (l : BatchH.BLoop) (hl : BatchH.parseLoop loopTextTimed = some l)
+    (batchSize : Nat) (hbs : 1 ≤ batchSize) (ls : List (α × Bool)) :
+    BatchH.numbered (BatchH.lateRead (BatchH.runH l batchSize ls)) = ((ls.map (·.1)).zipIdx 1).map (fun p => (some p.1, p.2)) ∧
+    (let s := ls.foldl (BatchH.stepH l batchSize) (BatchH.initH l batchSize)
+     BatchH.readSent s.heap s.sent =
+       ((ls.foldl (Batcher.step batchSize) ⟨[], [], 1⟩).out.map fun b => (b.lines.map some, b.start))) := by
+  have e : l = BatchH.timedLoop := by
+    have := batch_loops_from_source.2.1
+    rw [hl] at this
+    exact Option.some.inj this
+  subst e
+  refine ⟨?_, BatchH.midRead_timed batchSize hbs ls⟩
+  rw [BatchH.lateRead_timed batchSize hbs ls, BatchH.numbered_map, lineNumber_true]
+
+/-- the file readers' loop (no timer) -/
+theorem sent_batches_stable_files {α : Type} (l : BatchH.BLoop) (hl : BatchH.parseLoop loopTextPlain = some l)
+    (batchSize : Nat) (hbs : 1 ≤ batchSize) (ls : List (α × Bool)) :
+    BatchH.numbered (BatchH.lateRead (BatchH.runH l batchSize ls)) = ((ls.map (·.1)).zipIdx 1).map (fun p => (some p.1, p.2)) := by
+  have e : l = BatchH.plainLoop := by
+    have := batch_loops_from_source.1
+    rw [hl] at this
+    exact Option.some.inj this
+  subst e
+  rw [BatchH.lateRead_plain batchSize hbs ls, BatchH.numbered_map, lineNumber_true]
+  simp [Function.comp_def]
+
+/-- **The boundary: the allocation after a flush is what the property rests on.**  The same loop with
+`batch = batch[:0]` in place of `batch = make(…)` (`BatchH.reuseLoop`): batch size 3, line `1` arrives after a pause
+(timer fired, the short batch `[1]` is sent), line `2` follows at once.  A consumer that reads late sees line
+number 1 carrying the text of line 2 – the text of line 1 is gone. -/
+theorem batch_reuse_counterexample :
+    BatchH.numbered (BatchH.lateRead (BatchH.runH BatchH.reuseLoop 3 [(1, true), (2, false)])) = [(some 2, 1), (some 2, 2)] ∧
+    BatchH.numbered (BatchH.lateRead (BatchH.runH BatchH.timedLoop 3 [(1, true), (2, false)])) = [(some 1, 1), (some 2, 2)] := by
+  decide +kernel
 
 /-- `a|ab` on `xab`: Perl mode reports `a`, POSIX mode `ab`; `(a*)(a|b)*` on `aab`: the longest match with the
 captures a backtracking search finds first; `(\d{1,3})\.(\d{2})` and `\bb` through the parser -/
